@@ -149,7 +149,8 @@ def build_one(cfg):
         if n.startswith(cfg.name() + ".") and n != os.path.basename(out) and ".tmp" not in n:
             try:
                 # another run (e.g. the mutant self-test on a scratch tree) may be using it: only drop old ones
-                if time.time() - os.path.getmtime(os.path.join(bindir, n)) > 3 * 3600:
+                # (a day: a thorough run of this tree may still be executing a binary built hours ago)
+                if time.time() - os.path.getmtime(os.path.join(bindir, n)) > 24 * 3600:
                     os.unlink(os.path.join(bindir, n))
             except OSError:
                 pass
